@@ -14,14 +14,16 @@ from . import kernel
 def minimise(mod, case, tag, budget=400, wall=60.0):
     t0 = time.time()
     tried = [0]
+    if getattr(mod, 'USES_CHILD', False):
+        from .restorer import Child
+        Child.get()
 
     def fails(c):
         if tried[0] >= budget or time.time() - t0 > wall:
             return None
         tried[0] += 1
-        try:
-            res = kernel.execute(mod, c)
-        except Exception:
+        status, res = kernel.run_isolated(mod, c, timeout=300)
+        if status != 'ok':
             return None
         v = res['viol']
         if v is not None and v['tag'] == tag:
@@ -33,9 +35,10 @@ def minimise(mod, case, tag, budget=400, wall=60.0):
     if bestv is None:
         # not reproducible with the same tag (should not happen: runs are
         # deterministic) - report the original untouched
-        res = kernel.execute(mod, best)
-        return best, res['viol'] or {'tag': tag, 'detail': 'not reproduced'}, \
-            tried[0]
+        status, res = kernel.run_isolated(mod, best, timeout=300)
+        v = res['viol'] if status == 'ok' else None
+        return best, v or {'tag': tag, 'detail': 'not reproduced in a '
+                           'pristine process'}, tried[0]
 
     def exhausted():
         return tried[0] >= budget or time.time() - t0 > wall
